@@ -85,6 +85,59 @@ fn tsan_canary() {
     println!("canary done");
 }
 
+/// What one task evaluates. The baseline runs exactly the same code, one task after another on one thread.
+#[derive(Clone, Copy, Debug, PartialEq)]
+enum What {
+    /// the shared ruleset A
+    SharedA,
+    /// a second shared ruleset with the same function / symbol / rule names but different behaviour
+    SharedB,
+    /// a bare expression through Expr::evaluate (no ruleset at all)
+    BareExpr,
+    /// a ruleset built inside the task, evaluated and dropped there (allocations of dropped rulesets are reused while others run)
+    Ephemeral,
+}
+
+fn what(i: u64) -> What {
+    match i % 8 {
+        0 | 1 | 2 | 3 => What::SharedA,
+        4 | 5 => What::SharedB,
+        6 => What::BareExpr,
+        _ => What::Ephemeral,
+    }
+}
+
+fn descs_a() -> Vec<FnDesc> {
+    vec![
+        FnDesc { name: "s1", cacheable: true, kind: Kind::Tag, suspend: 2 },
+        FnDesc { name: "s2", cacheable: true, kind: Kind::V, suspend: 1 },
+        FnDesc { name: "n1", cacheable: false, kind: Kind::Tag, suspend: 1 },
+        FnDesc { name: "e1", cacheable: true, kind: Kind::E, suspend: 1 },
+    ]
+}
+
+fn descs_b() -> Vec<FnDesc> {
+    vec![
+        FnDesc { name: "s1", cacheable: false, kind: Kind::V, suspend: 1 },
+        FnDesc { name: "s2", cacheable: true, kind: Kind::Tag, suspend: 2 },
+        FnDesc { name: "n1", cacheable: true, kind: Kind::N, suspend: 0 },
+        FnDesc { name: "e1", cacheable: false, kind: Kind::T, suspend: 1 },
+    ]
+}
+
+fn bare_expr(i: u64) -> Expr {
+    Expr::Vec(vec![Expr::mult(Expr::reff("a"), Expr::value((i % 7) as i128)), Expr::index(Expr::reff("facts"), Index::from("b")), Expr::iif(Expr::gt(Expr::reff("a"), Expr::value(10)), Expr::value("big".to_string()), Expr::value("small".to_string()))])
+}
+
+/// an ephemeral ruleset: its symbol value and one of its rules depend on the task number
+fn ephemeral(i: u64) -> rvmon::fixture::Fixture {
+    let mut symbols = BTreeMap::new();
+    symbols.insert("limit".to_string(), Value::Int((i % 5) as i128));
+    let mut rs = rules();
+    rs.push(("own".into(), Expr::add(Expr::symbol("limit"), Expr::value(i as i128))));
+    build(&if i % 16 == 7 { descs_b() } else { descs_a() }, &symbols, &rs[(i % 4) as usize..], FaultPlan::default())
+}
+
 fn main() {
     let args: Vec<String> = std::env::args().collect();
     if args.get(1).map(|s| s == "tsan-canary").unwrap_or(false) {
@@ -96,40 +149,58 @@ fn main() {
     let seed: u64 = args.get(3).and_then(|s| s.parse().ok()).unwrap_or(1);
     let jitter = args.get(4).map(|s| s == "jitter").unwrap_or(false);
 
-    let descs = vec![
-        FnDesc { name: "s1", cacheable: true, kind: Kind::Tag, suspend: 2 },
-        FnDesc { name: "s2", cacheable: true, kind: Kind::V, suspend: 1 },
-        FnDesc { name: "n1", cacheable: false, kind: Kind::Tag, suspend: 1 },
-        FnDesc { name: "e1", cacheable: true, kind: Kind::E, suspend: 1 },
-    ];
     let mut symbols = BTreeMap::new();
     symbols.insert("limit".to_string(), Value::Int(1));
-    let fx = build(&descs, &symbols, &rules(), FaultPlan::default());
-    let log = fx.log.clone();
-    let ruleset: Arc<RuleSet> = Arc::new(fx.ruleset);
+    let fa = build(&descs_a(), &symbols, &rules(), FaultPlan::default());
+    symbols.insert("limit".to_string(), Value::Int(2));
+    let mut rules_b = rules();
+    rules_b.reverse();
+    let fb = build(&descs_b(), &symbols, &rules_b, FaultPlan::default());
+    let (log_a, log_b) = (fa.log.clone(), fb.log.clone());
+    let ruleset_a: Arc<RuleSet> = Arc::new(fa.ruleset);
+    let ruleset_b: Arc<RuleSet> = Arc::new(fb.ruleset);
     let total = threads as u64 * per_thread;
+
+    let make_task = |i: u64| -> Task {
+        let (ra, rb) = (ruleset_a.clone(), ruleset_b.clone());
+        Box::pin(async move {
+            let facts = input(i);
+            match what(i) {
+                What::SharedA => render(ra.evaluate_value(&facts).await),
+                What::SharedB => render(rb.evaluate_value(&facts).await),
+                What::BareExpr => {
+                    let e = bare_expr(i);
+                    let r = e.evaluate(&facts).await;
+                    vec![("bare".to_string(), format!("{:?}", match r { Ok(v) => Obs::Val(v), Err(e) => classify(&e) }))]
+                }
+                What::Ephemeral => {
+                    let fx = ephemeral(i);
+                    let r = render(fx.ruleset.evaluate_value(&facts).await);
+                    drop(fx);
+                    r
+                }
+            }
+        })
+    };
 
     // sequential baseline: one evaluation after another on this thread
     let mut expected: Vec<(Rendered, Vec<String>)> = Vec::with_capacity(total as usize);
     for i in 0..total {
-        log.take();
+        log_a.take();
+        log_b.take();
         CURRENT_EVAL.with(|c| c.set(i + 1));
-        let facts = input(i);
-        let r = render(rvmon::exec::block_on(ruleset.evaluate_value(&facts)));
-        let l = log_of(&log.take(), i + 1);
+        let r = rvmon::exec::block_on(make_task(i));
+        let mut l = log_of(&log_a.take(), i + 1);
+        l.extend(log_of(&log_b.take(), i + 1));
         expected.push((r, l));
     }
-    log.take();
+    log_a.take();
+    log_b.take();
 
     // concurrent: a shared run queue; every poll of a task may happen on a different thread
     let queue: Arc<Mutex<VecDeque<(u64, Task, Option<std::thread::ThreadId>)>>> = Arc::new(Mutex::new(VecDeque::new()));
     for i in 0..total {
-        let rs = ruleset.clone();
-        let t: Task = Box::pin(async move {
-            let facts = input(i);
-            render(rs.evaluate_value(&facts).await)
-        });
-        queue.lock().unwrap().push_back((i, t, None));
+        queue.lock().unwrap().push_back((i, make_task(i), None));
     }
     let results: Arc<Mutex<BTreeMap<u64, Rendered>>> = Arc::new(Mutex::new(BTreeMap::new()));
     let migrations = Arc::new(AtomicU64::new(0));
@@ -183,32 +254,33 @@ fn main() {
     for h in handles {
         h.join().expect("worker thread panicked");
     }
-    let entries = log.take();
     let mut by_eval: std::collections::HashMap<u64, Vec<String>> = std::collections::HashMap::new();
-    for e in &entries {
+    for e in log_a.take().iter().chain(log_b.take().iter()) {
         by_eval.entry(e.eval).or_default().push(format!("{}({:?})", e.func, e.arg));
     }
     let results = results.lock().unwrap();
     let mut mismatches = vec![];
+    let mut kinds: BTreeMap<String, u64> = BTreeMap::new();
     for i in 0..total {
+        *kinds.entry(format!("{:?}", what(i))).or_default() += 1;
         let (want_r, want_l) = &expected[i as usize];
         match results.get(&i) {
-            None => mismatches.push(format!("evaluation {i}: no result")),
+            None => mismatches.push(format!("evaluation {i} ({:?}): no result", what(i))),
             Some(r) => {
                 if r != want_r {
-                    mismatches.push(format!("evaluation {i}: outcomes differ from the sequential run: {r:?} vs {want_r:?}"));
+                    mismatches.push(format!("evaluation {i} ({:?}): outcomes differ from the sequential run: {r:?} vs {want_r:?}", what(i)));
                 }
             }
         }
         let l = by_eval.remove(&(i + 1)).unwrap_or_default();
         if &l != want_l {
-            mismatches.push(format!("evaluation {i}: invocation log differs from the sequential run: {l:?} vs {want_l:?}"));
+            mismatches.push(format!("evaluation {i} ({:?}): invocation log differs from the sequential run: {l:?} vs {want_l:?}", what(i)));
         }
     }
     let out = serde_json::json!({
         "threads": threads, "evaluations": total, "polls": polls.load(Ordering::Relaxed), "migrations": migrations.load(Ordering::Relaxed), "tasks_migrated": migrated_tasks.lock().unwrap().len(),
         "mismatches": mismatches.len(), "first_mismatches": mismatches.iter().take(3).collect::<Vec<_>>(),
-        "sample_outcome": expected.get(1).map(|e| format!("{:?}", e.0)),
+        "sample_outcome": expected.get(1).map(|e| format!("{:?}", e.0)), "evaluations_by_kind": kinds,
     });
     println!("C18MT {out}");
     std::process::exit(if mismatches.is_empty() { 0 } else { 1 });
